@@ -214,6 +214,10 @@ def ref_chain_set(names, s, a):
 
 
 # ---------------------------------------------------------------- rewards / terminations
+def nonfloor_count(rows):
+    return sum(1 for r in rows for o in r if o[0] != "Floor")
+
+
 def cell(s):
     return s[0][s[1]][s[2]]
 
